@@ -71,6 +71,13 @@ fn busy_at(v: &View, a: usize, seq: u64) -> bool {
     busy
 }
 
+/// A hook of actor a was entered and never finished within the trace (e.g. an ask cycle that the
+/// optional detection does not see, such as one closed through concurrent asks of one hook). Every
+/// liveness obligation of the properties is conditional on the running hook finishing.
+fn stuck(v: &View, a: usize) -> bool {
+    busy_at(v, a, u64::MAX)
+}
+
 // ------------------------------------------------------------------------------------------
 // C01 — accepted exactly once, rejected never
 // ------------------------------------------------------------------------------------------
@@ -137,7 +144,7 @@ fn c01_abc(v: &View, use_drop: bool) -> Vec<Violation> {
             let n = v.handled_count(mid);
             if n == 0 {
                 // the trace ran to the end of the epilogue: the actor had every opportunity
-                if v.phase_seq[2].is_some() {
+                if v.phase_seq[2].is_some() && !stuck(v, a) {
                     out.push(viol(
                         "C01",
                         "accepted-never-handled",
@@ -778,7 +785,7 @@ pub fn c06(v: &View) -> Vec<Violation> {
         }
         match av.stop_begin {
             None => {
-                if av.start_end.is_some() {
+                if av.start_end.is_some() && !stuck(v, a) {
                     out.push(viol("C06", "no-on-stop-after-kill", format!("actor {a}: kill() returned at seq {s} but on_stop never ran")));
                 }
             }
@@ -943,7 +950,10 @@ pub fn c07(v: &View) -> Vec<Violation> {
         let stop_called = v.ops.iter().any(|o| o.a == a && o.kind == OpKind::Stop && !o.skipped() && o.b_seq < h);
         let ended = av.joined_seq().map(|j| j < h).unwrap_or(false);
         if count_at_h == 0 || stop_accepted {
-            // must have ended gracefully by quiescence
+            // must have ended gracefully by quiescence (provided its running hook, if any, finishes)
+            if !ended && stuck(v, a) {
+                continue;
+            }
             if !ended {
                 out.push(viol(
                     "C07",
@@ -965,7 +975,10 @@ pub fn c07(v: &View) -> Vec<Violation> {
                     format!("actor {a} ended (joined={:?}, on_stop={:?}) although {count_at_h} strong handle(s) exist and no stop/kill/error/panic occurred", av.joined_seq(), av.stop_begin),
                 ));
             }
-            // the post-mortem probe ask must be answered
+            // the post-mortem probe ask must be answered (by an actor that is not stuck in a hook)
+            if stuck(v, a) {
+                continue;
+            }
             for o in v.ops.iter().filter(|o| o.a == a && o.phase == 1 && o.src == Src::Driver) {
                 if let Some((how, mid, _)) = o.send() {
                     let ok = if how.is_ask() { matches!(o.res, Some(Res::Rep { .. })) } else { matches!(o.res, Some(Res::Ok)) && v.handled_count(mid) == 1 };
